@@ -127,7 +127,7 @@ def run(ck, tier):
     _lexlocal(ck, p, byk)
     _carry(ck, p)
     # shared rule instances
-    c05._key(c05._Sub(_only(ck, ("chunk-cache:rebase", "chunk-cache:get:chars", "chunk-cache:put:chars")), "R-C12-rebase", ""), p, byk)
+    c05._key(c05._Sub(_only(ck, (":rebase", "chunk-cache:get:chars", "chunk-cache:put:chars")), "R-C12-rebase", ""), p, byk)
     c02._condense(c05._Sub(ck, "R-C12-condense", ""), p, byk)
     c02._stale(c05._Sub(ck, "R-C12-stale", ""), p, byk)
     c02.stale_use(c05._Sub(ck, "R-C12-stale", ""), p, "R-C12-stale")
